@@ -21,6 +21,10 @@ MANIFEST = dict(
          "and class-less protocols; generator coverage bounds what the tie sees.",
     technique="Lean 4 proof (refinement of a reference reassembler over arbitrary histories) + model/impl correspondence",
     design="DESIGN.md §6 C08")
+MANIFEST["note"] += (" Constants and limits of the C++ source that the model restates (translator/gen_limits.py -> Gen/Limits.lean: "
+                     "compiled probe + preprocessed function bodies at named anchors) are tied to the model's numerals by the "
+                     "theorems of lean/TinsModel/Props/Limits/C08.lean (audit: Audit/LimitsC08.lean); tools/LIMITS-INVENTORY.md lists "
+                     "what is tied and what is not.")
 
 A, B, C = 0x0A000001, 0x0A000002, 0xC0A80164
 RAW_PROTOS = [253, 254, 99, 47, 0, 255]
